@@ -94,6 +94,8 @@ func (j *jsonStreamer) delimit(doer px.Doer) {
 	default: // Element
 		assertOk(j.out.Write([]byte{','}))
 		doer()
+		// a nested array or hash has overwritten the state
+		j.state = afterElement
 	}
 }
 
